@@ -11,7 +11,7 @@ use serde_json::{json, Value};
 use std::cell::RefCell;
 use std::rc::Rc;
 
-pub const URLS: [&str; 11] = [
+pub const URLS: [&str; 15] = [
     "http://tracker.example/announce",
     "http://tracker.example:8080/a/b/announce",
     "http://t.example/announce?key=1",
@@ -26,6 +26,12 @@ pub const URLS: [&str; 11] = [
     // percent-encoded; compared after decoding)
     "http://t.example/ann\u{f6}unce?key=1",
     "http://t.example/\u{4e2d}\u{6587}/announce?k=\u{e9}t\u{e9}&z=1",
+    // a fragment (never sent to a server) behind the path and behind a query
+    "http://t.example/announce#section",
+    "http://t.example/announce?key=1#section",
+    // parameters of the tracker whose names contain / equal names of the client's own parameters
+    "http://t.example/announce?transport=tcp&days_left=30&super_peer_id=7&xinfo_hash=1",
+    "http://t.example/announce?numwant=5&event=x&uploaded=7",
 ];
 
 /// Scheme and host in lower case (they are case-insensitive), the rest untouched.
@@ -120,6 +126,8 @@ fn pct_decode(s: &str) -> Option<Vec<u8>> {
 }
 
 fn split_url(u: &str) -> (String, Vec<(Vec<u8>, Vec<u8>)>) {
+    // the fragment is not part of what a server is sent
+    let u = u.split('#').next().unwrap();
     let (base, query) = match u.find('?') {
         Some(p) => (&u[..p], &u[p + 1..]),
         None => (u, ""),
@@ -241,6 +249,70 @@ pub fn hashes(thorough: bool) -> Vec<[u8; 20]> {
     v
 }
 
+/// Re-announces of a running session (full-session world): a seeder delivers `deliver` pieces, then
+/// the other connection ends and the client, out of candidates, announces again. That request must
+/// name the bytes still left to download at that moment (and everything else as the first one).
+pub fn reannounce_case(dir: &std::path::PathBuf, deliver: usize, verbose: bool) -> (u64, Option<(&'static str, String)>) {
+    use crate::fixture::Torrent;
+    use crate::fullworld::{FEv, FullWorld, TrackerOutcome};
+    use crate::refwire::{self, Msg};
+    use crate::world::peer_cfg;
+    let t = Torrent::new("t", 5, &[("f", 13)], true);
+    let cfgs = vec![peer_cfg(0, true), peer_cfg(1, true)];
+    let mut w = FullWorld::new(&t, &cfgs, vec![TrackerOutcome::Good(vec![0, 1])], TrackerOutcome::Good(vec![]), dir);
+    let mut steps = 3u64;
+    let (idp, idq) = (w.peers[0].cfg.id, w.peers[1].cfg.id);
+    w.step(&FEv::Feed(0, [refwire::encode(&refwire::handshake(t.meta.info_hash(), &idp)), refwire::encode(&Msg::Bitfield(vec![0xe0])), refwire::encode(&Msg::Unchoke)].concat()));
+    w.step(&FEv::Feed(1, refwire::encode(&refwire::handshake(t.meta.info_hash(), &idq))));
+    let owned_bytes = |w: &FullWorld| -> u64 { w.snap().map(|s| s.statuses.iter().enumerate().filter(|(_, x)| **x == rdest::verif::Status::Have).map(|(i, _)| t.pieces[i].len() as u64).sum()).unwrap_or(0) };
+    let mut answered = 0usize;
+    for _ in 0..8 {
+        if (owned_bytes(&w) > 0) as usize + (owned_bytes(&w) > 5) as usize + (owned_bytes(&w) > 10) as usize >= deliver.max(0) && deliver as u64 <= w.snap().map(|s| s.statuses.iter().filter(|x| **x == rdest::verif::Status::Have).count() as u64).unwrap_or(0) {
+            break;
+        }
+        let reqs: Vec<(u32, u32, u32)> = w.peers[0].conn.as_ref().map(|c| c.msgs.iter().filter_map(|m| if let Msg::Request(i, b, l) = m { Some((*i, *b, *l)) } else { None }).collect()).unwrap_or_default();
+        if answered >= reqs.len() {
+            break;
+        }
+        let (i, b, l) = reqs[answered];
+        answered += 1;
+        w.step(&FEv::Feed(0, refwire::encode(&Msg::Piece(i, b, t.pieces[i as usize][b as usize..(b + l) as usize].to_vec()))));
+        steps += 1;
+    }
+    let have_n = w.snap().map(|s| s.statuses.iter().filter(|x| **x == rdest::verif::Status::Have).count()).unwrap_or(0);
+    if have_n != deliver {
+        return (steps, Some(("MACHINERY", format!("wanted {} pieces owned before the re-announce, got {}: {}", deliver, have_n, w.session_key()))));
+    }
+    let left_before = 13 - owned_bytes(&w);
+    let n_before = w.announces.borrow().len();
+    w.step(&FEv::Close(1));
+    steps += 1;
+    let reqs = w.announces.borrow().clone();
+    if verbose {
+        println!("pieces owned {} (left {} bytes); announces: {:#?}", deliver, left_before, reqs);
+    }
+    if deliver == 3 {
+        // nothing is missing: no re-announce is owed
+        return (steps, None);
+    }
+    if reqs.len() != n_before + 1 {
+        return (steps, Some(("MACHINERY", format!("expected one re-announce after the other connection ended, saw {} (before: {})", reqs.len(), n_before))));
+    }
+    let (_, pairs) = split_url(&reqs[reqs.len() - 1]);
+    let left: Vec<&Vec<u8>> = pairs.iter().filter(|(k, _)| k == b"left").map(|(_, v)| v).collect();
+    if left.len() != 1 || left[0].as_slice() != left_before.to_string().as_bytes() {
+        return (steps, Some(("left-parameter-wrong", format!("re-announce of a session that owns {} of 3 pieces ({} of 13 bytes still to download) says left={:?}: {}", deliver, left_before, left.iter().map(|v| core::show(v)).collect::<Vec<_>>(), reqs[reqs.len() - 1]))));
+    }
+    let hashes: Vec<&Vec<u8>> = pairs.iter().filter(|(k, _)| k == b"info_hash").map(|(_, v)| v).collect();
+    if hashes.len() != 1 || hashes[0].as_slice() != &t.meta.info_hash()[..] {
+        return (steps, Some(("info-hash-parameter-wrong", format!("re-announce {}", reqs[reqs.len() - 1]))));
+    }
+    if !pairs.iter().any(|(k, v)| k == b"peer_id" && v.as_slice() == &crate::world::OWN_ID[..]) || !pairs.iter().any(|(k, v)| k == b"port" && v == b"6881") {
+        return (steps, Some(("peer-id-parameter-wrong", format!("re-announce {}", reqs[reqs.len() - 1]))));
+    }
+    (steps, None)
+}
+
 pub fn run(ctx: &Ctx) -> Outcome {
     let hs = hashes(ctx.tier == core::Tier::Thorough);
     let mut cases = vec![];
@@ -309,10 +381,28 @@ pub fn run(ctx: &Ctx) -> Outcome {
             ctx.violation(class, summary.clone(), json!({"hash": core::hex(&c.hash), "url": c.url, "id": c.id, "len": c.len, "faults": c.faults, "announce": URLS[c.url]}));
         }
     }
+    // re-announces of a running session
+    let mut re_rows = vec![];
+    {
+        let dir = core::private_cwd("c18", "re");
+        core::set_quiet_panics(true);
+        for deliver in 0..=2usize {
+            let (n, v) = reannounce_case(&dir, deliver, false);
+            re_rows.push(json!({"pieces_owned_at_re_announce": deliver, "events": n, "ok": v.is_none()}));
+            if let Some((class, why)) = v {
+                if class == "MACHINERY" {
+                    ctx.machinery_error(why);
+                } else {
+                    ctx.violation(class, why, json!({"kind": "reannounce", "deliver": deliver}));
+                }
+            }
+        }
+    }
     let mut o = Outcome::new("exploration");
-    o.set("evaluations", json!(cases.len()));
+    o.set("re_announce_cases", Value::Array(re_rows));
+    o.set("evaluations", json!(cases.len() + 3));
     o.set("distinct_nontrivial", json!(distinct.len()));
-    o.set("rule", json!("info-hash = a fixed 20-byte pattern with every byte value 0..=255 substituted at the listed positions, plus all-equal hashes; x 11 announce URLs (plain, port+path, with one / two query parameters, trailing ?, upper-case scheme, mixed-case https host with port and query, IPv6 literal, IPv4 literal with port, non-ASCII characters in the path before a query, non-ASCII in path and in a parameter value; bases compared after percent-decoding) x 5 alphanumeric peer ids x total lengths {0, 1, 2^40, 2^31-1, 2^32, 2^53+1, 2^63-1, 2^63, 2^63+1, 2^64-1, 2^40+1}, the last four as multi-file torrents (quick: ids/lengths only vary for the first URL). Plus retries: every word of <= 2 (thorough 3) failed announces (refused / HTTP 500 / garbage / failure reason) before the good reply for every URL, id and length, and one failure for every hash; EVERY request of a case is judged, not only the first. Each case runs the real TrackerClient::run over the HTTP seam (paused clock, so the 1 s retry delay is virtual); distinct_nontrivial = number of distinct request URLs captured."));
+    o.set("rule", json!("info-hash = a fixed 20-byte pattern with every byte value 0..=255 substituted at the listed positions, plus all-equal hashes; x 15 announce URLs (plain, port+path, with one / two query parameters, trailing ?, upper-case scheme, mixed-case https host with port and query, IPv6 literal, IPv4 literal with port, non-ASCII characters in the path before a query, non-ASCII in path and in a parameter value, a #fragment behind the path and behind a query, tracker parameters whose names contain (transport, days_left, super_peer_id, xinfo_hash) or equal (numwant, event, uploaded) names of the client's own parameters; bases compared after percent-decoding, fragments dropped) x 5 alphanumeric peer ids x total lengths {0, 1, 2^40, 2^31-1, 2^32, 2^53+1, 2^63-1, 2^63, 2^63+1, 2^64-1, 2^40+1}, the last four as multi-file torrents (quick: ids/lengths only vary for the first URL). Plus retries: every word of <= 2 (thorough 3) failed announces (refused / HTTP 500 / garbage / failure reason) before the good reply for every URL, id and length, and one failure for every hash; EVERY request of a case is judged, not only the first. Each case runs the real TrackerClient::run over the HTTP seam (paused clock, so the 1 s retry delay is virtual); distinct_nontrivial = number of distinct request URLs captured. Plus re-announces of a running session (full-session world, 3 pieces of 5+5+3 bytes): after 0, 1, 2 pieces were delivered the other connection ends, the client is out of candidates and announces again; that request must carry left = bytes of the pieces still missing, the info-hash, peer id and port."));
     o.set("hashes", json!(hs.len()));
     let picks = ctx.seeded_pick(cases.len(), 4);
     o.set("samples", Value::Array(picks.iter().map(|i| json!({"announce": URLS[cases[*i].url], "hash": core::hex(&cases[*i].hash), "request": res[*i].0})).collect()));
@@ -323,6 +413,19 @@ pub fn run(ctx: &Ctx) -> Outcome {
 }
 
 pub fn replay(_ctx: &Ctx, r: &Value) -> i32 {
+    if r["kind"] == "reannounce" {
+        let dir = core::private_cwd("c18", "replay");
+        return match reannounce_case(&dir, r["deliver"].as_u64().unwrap() as usize, true).1 {
+            Some((class, s)) => {
+                println!("VIOLATION property=C18 replay=<this file>\n  class={} {}", class, s);
+                1
+            }
+            None => {
+                println!("holds for this case");
+                0
+            }
+        };
+    }
     let hexs = r["hash"].as_str().unwrap();
     let mut hash = [0u8; 20];
     for i in 0..20 {
